@@ -20,6 +20,25 @@ def scenario(n, path, rstack, drops, again):
             await w.ezsp.connect(use_thread=False)
             if rstack == "dup":
                 w.ncp.dup_rstack = True   # every RSTACK arrives twice, both copies in one read
+            if isinstance(rstack, str) and rstack.startswith("lose"):
+                # the line loses the first k frames the host sends after the reset handshake: ASH retransmits (1.6 s, 3.2 s, ...),
+                # well inside the command timeout for k <= 3 - bring-up completes all the same
+                w.ncp.drop_rx_after_reset = int(rstack[4:])
+            if rstack == "split":
+                # a socket NCP that is still starting (deaf to the RST): its spontaneous start-up RSTACK is late and arrives in two
+                # TCP segments, the first just before the host gives up waiting and sends its RST, the second just after
+                k = __import__("harness.ashlib", fromlist=["x"]).spec_wire("K", code=0x0B)
+                w.ncp.boot_delay = 100.0
+                w.loop.call_later(0.9, lambda: (w.ncp.out.append(k[:3]), w.pump()))
+
+                def _rest():
+                    w.ncp.booting = False
+                    w.ncp.boot_gen += 1        # (its own deferred announcement is this very frame)
+                    w.ncp.boot_delay = 0.0     # it is up now: later resets are answered at once
+                    w.ncp.out.append(k[3:])
+                    w.pump()
+
+                w.loop.call_later(1.2, _rest)
             if rstack == "early":
                 w.ncp.boot_delay = 0.4   # (were the host to reset an NCP that has just announced itself, the NCP would be deaf for a while)
                 w.ncp.out.append(__import__("harness.ashlib", fromlist=["x"]).spec_wire("K", code=0x0B))
@@ -148,7 +167,7 @@ def oracle(n, path, rstack, drops, again, o):
     if o["misframed"]:
         return f"NCP v{n} received frames it cannot parse in its current format: {o['misframed'][:3]}"
     fr = [bytes.fromhex(x) for x in o["frames"]]
-    if path.startswith("/dev") or rstack != "early":  # (a spontaneous start-up reset seen on a TCP path replaces the host's own)
+    if path.startswith("/dev") or rstack not in ("early",):  # (a spontaneous start-up reset seen on a TCP path replaces the host's own)
         if RST not in b"".join(o["wire_h2n"][:2]):
             return f"the ASH reset handshake was not performed first (first writes {[hx(b) for b in o['wire_h2n'][:2]]})"
     if not fr or fr[0][1:] != bytes([0, 0, 4]):
@@ -195,6 +214,12 @@ def cases(ctx):
             if n in (4, 7, 8, 13, 14, 15) or ctx.tier == "thorough":
                 cs.append((n, path, rstack, (0, 0), "startup"))
                 cs.append((n, path, rstack, (0, 0), "lost"))
+    for n in versions:
+        if n in (4, 7, 8, 13, 14, 15) or ctx.tier == "thorough":
+            for k in (1, 2, 3):
+                cs.append((n, "/dev/ttyUSB0", f"lose{k}", (0, 0), False))
+                cs.append((n, "socket://127.0.0.1:6638", f"lose{k}", (0, 0), False))
+            cs.append((n, "socket://127.0.0.1:6638", "split", (0, 0), n % 2 == 0))
     for n in versions:
         # the line duplicates the reset acknowledgement: both copies arrive in one read (first bring-up and a later reset)
         cs.append((n, "/dev/ttyUSB0", "dup", (0, 0), n % 2 == 0))
@@ -256,7 +281,7 @@ def run(ctx):
         if i % 60 == 0:
             ctx.sample({"case": list(map(str, c)), "result": o["result"], "frames": o["frames"][:3], "ev": o.get("ev1"), "hv": o.get("hv1")})
     ctx.cov["rule"] = ("NCP protocol versions 4..14, 15, 16, 255 x {serial path; socket path with the spontaneous start-up RSTACK early / late / absent} with a later reset and renegotiation (EZSP.reset + version; stop_ezsp + startup_reset + write_config; the same after a reset whose acknowledgement was lost), "
-                       "the reset acknowledgement duplicated by the line (two RSTACKs in one read); a bring-up whose first reset acknowledgement is lost retried on the same object, a later reset with a lost acknowledgement retried without stopping EZSP, a later reset whose RST crosses a callback of the old session carrying each frame number 0..7; and link faults during bring-up (the NCP loses the first 0..2 (0..5 thorough) frames in each direction); every run is a full connect + startup_reset + write_config of the real stack")
+                       "the first 1..3 host frames after the handshake lost (recovered by ASH retransmissions inside the command timeout); a late start-up RSTACK of a socket NCP split around the host's RST; the reset acknowledgement duplicated by the line (two RSTACKs in one read); a bring-up whose first reset acknowledgement is lost retried on the same object, a later reset with a lost acknowledgement retried without stopping EZSP, a later reset whose RST crosses a callback of the old session carrying each frame number 0..7; and link faults during bring-up (the NCP loses the first 0..2 (0..5 thorough) frames in each direction); every run is a full connect + startup_reset + write_config of the real stack")
     ctx.exhaustive = True
 
 
